@@ -108,6 +108,13 @@ func checkC12(P *Prog, r *Result) {
 					if len(classes) == 0 {
 						okArg = false
 					}
+					// Preprocess hands its function the input *as it is* (asserted to F): a value that went through
+					// reflect.Value.Convert is another value - every integer converts to a string, through the rune
+					// conversion - and which front end delivered the leaf then decides what the function sees
+					if wantInput && okArg && viaReflectConvert(args[0], 0) {
+						r.bad("C12/callback-arg", c, P.ipos(in), "the Preprocess function is not called with the input itself but with a reflect conversion of it: Go converts every integer kind to string (65 → \"A\") and between numeric kinds, so a leaf that arrives as int from a Go map, float64 from JSON and string from a form reaches the function as three different things where it used to be a type mismatch for two of them")
+						return
+					}
 					if okArg {
 						what := "the node's destination pointer (ValPtr)"
 						if wantInput {
@@ -546,6 +553,9 @@ func checkC12(P *Prog, r *Result) {
 	// a Preprocess type mismatch becomes an issue and the wrapped schema is skipped - also when the mismatching value is
 	// a blank string, which the absence predicate calls absent: the node's decision order (C04's rule on Preprocess)
 	shareRule(P, r, checkC04, "C04/decision-shape", func(o Obligation) bool { return strings.Contains(o.Construct, "PreprocessSchema") }, "C12/preprocess-mismatch-is-an-issue", 0) // (no instance on a tree whose Preprocess node makes no absence decision at all)
+	// ... an issue, not a panic: what the Preprocess node does with a value of the wrong type cannot panic on it (C06's
+	// panic sites in the Preprocess node and the helpers only it reaches)
+	shareRule(P, r, checkC06, "C06/panic-site", func(o Obligation) bool { return strings.Contains(o.Construct, "PreprocessSchema") || strings.Contains(o.Construct, "UnwrapPtr") }, "C12/mismatch-is-an-issue-not-a-panic", 1)
 }
 
 // errResultGuardsIssue: the error result (last extract) of call c is compared
@@ -984,4 +994,48 @@ func (P *Prog) unknownErrorShape(fn *ssa.Function) []string {
 		problems = append(problems, "the two cases (the error is a *ZogIssue | it is not) were not both found")
 	}
 	return uniqSorted(problems)
+}
+
+// viaReflectConvert: the value is (asserted out of) the result of reflect.Value.Convert.
+func viaReflectConvert(v ssa.Value, depth int) bool {
+	if depth > 8 {
+		return false
+	}
+	switch x := cv(v).(type) {
+	case *ssa.Extract:
+		return viaReflectConvert(x.Tuple, depth+1)
+	case *ssa.TypeAssert:
+		return viaReflectConvert(x.X, depth+1)
+	case *ssa.MakeInterface:
+		return viaReflectConvert(x.X, depth+1)
+	case *ssa.ChangeInterface:
+		return viaReflectConvert(x.X, depth+1)
+	case *ssa.Phi:
+		for _, e := range x.Edges {
+			if viaReflectConvert(e, depth+1) {
+				return true
+			}
+		}
+	case *ssa.UnOp:
+		if x.Op == token.MUL {
+			if al, ok := x.X.(*ssa.Alloc); ok {
+				for _, st := range storesTo(al) {
+					if viaReflectConvert(st.Val, depth+1) {
+						return true
+					}
+				}
+			}
+		}
+	case *ssa.Call:
+		ci := callOf(x)
+		if ci.static != nil && isPkgFunc(ci.static, "reflect") {
+			if ci.static.Name() == "Convert" {
+				return true
+			}
+			if len(x.Call.Args) > 0 {
+				return viaReflectConvert(x.Call.Args[0], depth+1)
+			}
+		}
+	}
+	return false
 }
